@@ -781,3 +781,47 @@ Proof.
            (plan_ok_implies_plan_okb h p (proj1 (cf_parts h Hcf)) Hp Hall) Er HG HS Eg Ei).
 Qed.
 Print Assumptions C01_people_composed.
+
+(* ---- the edge of the domain: path deletion on a DAG (theories/Burndown/PathDel.v) ----
+   [conflict_free] histories never delete a path: a path that exists in a commit exists in every descendant (a file whose
+   lines are all killed stays as an empty file).  C01_global_sparse, C01_matrix, C01_files, C01_people, C01_ownership,
+   C01_finalize and their corollaries therefore cover histories WITHOUT path deletion (and without renames): their
+   canonical change lists never contain CDelete and handle_deletion is never executed. *)
+From Herc Require Import Burndown.Linear Burndown.PathDel.
+
+Theorem C01_domain_paths_never_disappear : forall h c a seq,
+  conflict_free h = true -> 0 <= c < ncommits h -> ancb (ancs h) c a = true ->
+  path_exists (ancs h) a seq = true -> path_exists (ancs h) c seq = true.
+Proof. exact path_exists_mono. Qed.
+Print Assumptions C01_domain_paths_never_disappear.
+
+(* With path deletions admitted (conflict_free_pd: a file is deleted by a one-parent commit that kills all its lines, nobody
+   touches the file concurrently, a deleted path may be re-created as a new file; every merge still the clean union of its
+   parents, every line killed by at most one commit) the statement of C01_matrix is FALSE of the model - and of the Go code,
+   which returns the same matrix on this history (known finding, PROPFAIL marker [path-deleted-on-a-branch]):
+   R (f: 3 lines, h: 1 line) -> A deletes f -> A2 re-creates f (2 lines);  R -> B adds a line to h;  M = merge (A, B);
+   M2 = merge (M, A2).  When M is replayed on B's branch, deletions[f] has been cleared by A2's insertion and
+   handleDeletion books the three old lines a second time, at tick 0: row 0 is [1; 0; 0] instead of [4; 0; 0], the rows
+   after it start with -2. *)
+Theorem C01_matrix_refuted_with_path_deletion :
+  exists (pd : pdhist) (plan : list action) (cf : cfg) (aidx : list Z) (G S : Z) (w : world) (M : list (list Z)) (last : Z),
+    conflict_free_pd pd = true /\
+    forallb (fun c => tick_of (pd_h pd) c <? mark) (zrange (ncommits (pd_h pd))) = true /\
+    plan_okb (pd_h pd) plan = true /\
+    run_hist_pd cf pd aidx plan = Ok w /\
+    1 <= G /\ 1 <= S /\
+    group_sparse_history G S (s_gh (w_shared w)) (-1) = Ok (M, last) /\
+    M <> truth_project (pd_h pd) G S /\
+    nonneg_matrix M = false /\
+    truth_project (pd_h pd) G S = [[4; 0; 0]; [1; 1; 0]; [1; 1; 2]] /\ M = [[1; 0; 0]; [-2; 1; 0]; [-2; 1; 2]].
+Proof. exact matrix_refuted_with_path_deletion. Qed.
+Print Assumptions C01_matrix_refuted_with_path_deletion.
+
+(* control: the same history without the re-creation is analysed correctly (deletions[f] is still set when M is replayed) *)
+Example C01_path_deletion_control :
+  conflict_free_pd ctl_pd = true /\ plan_okb ctl_h ctl_plan = true /\
+  match run_hist_pd (mkCfg 0 false) ctl_pd [0; 0; 0; 0] ctl_plan with
+  | Ok w => group_sparse_history 1 1 (s_gh (w_shared w)) (-1) = Ok (truth_project ctl_h 1 1, 1)
+  | _ => False
+  end.
+Proof. exact path_deletion_control. Qed.
